@@ -184,3 +184,30 @@ Definition value_oracles_ok (v : value) : bool :=
   (match v_str v with
    | Some s => match unquote_plain s with Some u => match v_unq v with Some u' => String.eqb u u' | None => false end | None => true end
    | None => true end).
+
+(* ---------- the de-duplication key of analyzeCond is AttrSelector.String(); two terms of one
+   selector with the same key must be the same term for the shared bit to mean the same thing.
+   True of every tree the parser builds (the token texts determine all fields); checked on
+   every harness case. ---------- *)
+Definition opt_eqb {A} (eq : A -> A -> bool) (a b : option A) : bool :=
+  match a, b with Some x, Some y => eq x y | None, None => true | _, _ => false end.
+Definition cmp_eqb (a b : cmp) : bool :=
+  match a, b with
+  | CEq, CEq | CNeq, CNeq | CLt, CLt | CLe, CLe | CGt, CGt | CGe, CGe | CRe, CRe | CNre, CNre => true
+  | _, _ => false
+  end.
+Definition value_eqb (a b : value) : bool :=
+  String.eqb (v_time a) (v_time b) && String.eqb (v_f a) (v_f b) && opt_eqb String.eqb (v_str a) (v_str b)
+  && opt_eqb String.eqb (v_unq a) (v_unq b) && opt_eqb String.eqb (v_ffmt a) (v_ffmt b) && opt_eqb Z.eqb (v_dur a) (v_dur b).
+Definition attr_sel_eqb (a b : attr_sel) : bool :=
+  String.eqb (a_label a) (a_label b) && cmp_eqb (a_op a) (a_op b) && value_eqb (a_val a) (a_val b).
+
+Fixpoint exp_terms (e : attr_exp) : list attr_sel :=
+  match e with
+  | AExp h _ tl =>
+      (match h with HTerm t => [t] | HParen e' => exp_terms e' end ++
+       match tl with Some t' => exp_terms t' | None => [] end)%list
+  end.
+Definition keys_ok (e : attr_exp) : bool :=
+  let ts := exp_terms e in
+  forallb (fun a => forallb (fun b => negb (String.eqb (attr_sel_string a) (attr_sel_string b)) || attr_sel_eqb a b) ts) ts.
